@@ -750,3 +750,49 @@ Proof.
   intros n Hb H. apply rfc_ws_is_ly_lex in H.
   apply (dec64_parse_complete 1 _ n 0 ltac:(lia)) in H; [|exact Hb]. discriminate.
 Qed.
+
+(* ---------- store level ---------- *)
+Lemma dec64_parse_bounds fd s nxt n :
+  dec64_parse fd s nxt = Ok n -> (I64MIN_Z <= n <= I64MAX_Z)%Z.
+Proof.
+  unfold dec64_parse. cbv zeta. destruct (skip_space s) as [|c0 r0]; [discriminate|].
+  destruct (negb (is_digit c0) && negb (c0 =? 45) && negb (c0 =? 43)); [discriminate|].
+  destruct (dec64_scan (c0 :: r0) nxt _) as [[fraction len] tz].
+  unfold dec64_finish. cbv zeta.
+  destruct (negb (fraction =? 0)%nat && (fd <? len - 1 - fraction)%nat); [discriminate|].
+  match goal with |- (if negb ?b then _ else _) = _ -> _ => destruct b end; cbn [negb]; [|discriminate].
+  intro H. apply plg_parse_int_ok in H. tauto.
+Qed.
+
+Lemma dec64_store_inv fd parts s nxt n :
+  dec64_store fd parts s nxt = Ok n <-> dec64_parse fd s nxt = Ok n /\ validate_range parts n = true.
+Proof.
+  unfold dec64_store. destruct (dec64_parse fd s nxt) as [m|e].
+  - destruct (validate_range parts m) eqn:Hr; split.
+    + intro H. inversion H; subst. auto.
+    + intros [H _]. exact H.
+    + discriminate.
+    + intros [H Hr2]. inversion H; subst. congruence.
+  - split; [discriminate|]. intros [H _]. discriminate.
+Qed.
+
+(* whatever spelling was stored, its canonical string is in RFC canonical form and storing that
+   string (from any place in memory) gives the same value again *)
+Theorem dec64_canon_idempotent fd parts s nxt nxt' n :
+  (1 <= fd)%nat ->
+  dec64_store fd parts s nxt = Ok n ->
+  dec64_store fd parts (dec64_canon fd n) nxt' = Ok n /\ rfc_dec64_canonical (dec64_canon fd n).
+Proof.
+  intros Hfd H. apply dec64_store_inv in H. destruct H as [Hp Hr].
+  split; [|apply dec64_canon_is_rfc; exact Hfd].
+  apply dec64_canon_store; [exact Hfd|exact (dec64_parse_bounds _ _ _ _ Hp)|exact Hr].
+Qed.
+
+(* the full-strength statement for the store callback *)
+Theorem dec64_store_scale fd parts s n nxt :
+  (1 <= fd)%nat -> is_digit nxt = false -> dec64_sign_no_digit s = false ->
+  (dec64_store fd parts s nxt = Ok n <->
+   rfc_ws_dec64_lex fd s n /\ (I64MIN_Z <= n <= I64MAX_Z)%Z /\ validate_range parts n = true).
+Proof.
+  intros Hfd Hnxt Hdef. rewrite dec64_store_inv, (dec64_scale fd s n nxt Hfd Hnxt Hdef). tauto.
+Qed.
